@@ -423,3 +423,101 @@ func targetDiff(pre, post sim.Obj, allowedL, allowedA map[string]bool, statusAll
 	}
 	return ""
 }
+
+// A target that is pending deletion, was finalized by this decorator (its finalizer is gone) and is
+// kept alive by somebody else's finalizer: further syncs call the finalize hook, get
+// `finalized: true`, and have nothing to change - "no request is sent when nothing would change".
+func TestVerif_C16_FinalizedHeld(t *testing.T) {
+	for _, kind := range []string{"Thing", "NoStatus", "ClusterThing"} {
+		for _, withAtt := range []bool{false, true} {
+			kind, withAtt := kind, withAtt
+			id := fmt.Sprintf("c16-finalized-held-%s-att%v", strings.ToLower(kind), withAtt)
+			if !sim.WantCase(id) {
+				continue
+			}
+			t.Run(id, func(t *testing.T) {
+				t.Parallel()
+				runC16FinalizedHeld(t, id, kind, withAtt)
+			})
+		}
+	}
+}
+
+func runC16FinalizedHeld(t *testing.T, id, kind string, withAtt bool) {
+	rep := sim.R()
+	rep.Begin("C16", id)
+	uid := uniqueID("fh")
+	sc := &dScenario{ID: uid, Target: kind, Finalize: true, Kinds: []dKind{{Kind: "ConfigMap", Method: "InPlace"}}}
+	if withAtt {
+		sc.Kids = []dKid{{Kind: "ConfigMap", Name: "att-" + uid, Value: "v1"}}
+	}
+	r := prepareD(sc)
+	defer r.close()
+	w := r.w
+	w.caseID = id
+	s := w.sim
+	tgvr := sc.targetInfo().GVR()
+	finName := "metacontroller.io/decoratorcontroller-" + uid
+	s.ExtMutate(tgvr, sc.ns(), sc.targetName(), func(o sim.Obj) {
+		sim.SetNested(o, []interface{}{"example.com/foreign"}, "metadata", "finalizers")
+	})
+	if err := w.start(); err != nil {
+		inconclusive(t, "C16", id, err)
+		return
+	}
+	defer w.flushCounters("C16")
+	settle := func() ([]*syncResult, bool) {
+		var all []*syncResult
+		for i := 0; i < 30; i++ {
+			syncs, ok := w.round()
+			if !ok {
+				return all, false
+			}
+			all = append(all, syncs...)
+			if len(syncs) == 0 {
+				if !w.quiesce() {
+					return all, false
+				}
+				if w.q.Len() == 0 {
+					return all, true
+				}
+			}
+		}
+		return all, true
+	}
+	if _, ok := settle(); !ok {
+		inconclusive(t, "C16", id, w.watchdog)
+		return
+	}
+	hadOurs := sim.HasFinalizer(s.Peek(tgvr, sc.ns(), sc.targetName()), finName)
+	s.ExtDelete(tgvr, sc.ns(), sc.targetName(), "")
+	if _, ok := settle(); !ok {
+		inconclusive(t, "C16", id, w.watchdog)
+		return
+	}
+	cur := s.Peek(tgvr, sc.ns(), sc.targetName())
+	held := cur != nil && sim.IsDeleting(cur) && !sim.HasFinalizer(cur, finName) && sim.HasFinalizer(cur, "example.com/foreign")
+	hookCalls, writes := 0, 0
+	if held {
+		// three more looks at it: the finalize hook is asked, nothing is written
+		for i := 0; i < 3; i++ {
+			w.q.Add(r.key())
+			syncs, ok := settle()
+			if !ok {
+				inconclusive(t, "C16", id, w.watchdog)
+				return
+			}
+			for _, sr := range syncs {
+				hookCalls += len(sr.Hooks)
+				for _, q := range sr.Requests {
+					if q.Actor == "mc" && q.Mutating() {
+						writes++
+						rep.Violation("C16", id, "write-when-nothing-changes:finalized-target-held-by-foreign-finalizer", "the target was finalized before (our finalizer is gone), the finalize hook answers finalized: true and changes nothing, yet a request was sent: "+q.String(),
+							map[string]interface{}{"requests": sim.DescribeLog(sr.Requests, false), "hooks": describeHooks(sr.Hooks)})
+					}
+				}
+			}
+		}
+	}
+	rep.Case("C16", id, held && hookCalls > 0, id, map[string]interface{}{"kind": kind, "attachment": withAtt, "finalizerWasAdded": hadOurs, "heldByForeignFinalizer": held, "hookCalls": hookCalls, "writes": writes})
+}
